@@ -21,14 +21,15 @@ import (
 )
 
 type c02Input struct {
-	Stack    string `json:"stack"`
-	Suite    uint16 `json:"suite"`
-	Insecure bool   `json:"insecure"`
-	Chain    string `json:"chain"` // srv | untrusted | expired | future | wrong-name | single | swapped | mixed-ca | rsa | ed
-	SKX      string `json:"skx"`   // ok | other-key | other-randoms | other-cert | other-params | corrupt | empty-sig | no-sig | omit
-	Fin      string `json:"fin"`   // ok | wrong
-	NoEncKey bool   `json:"no_enc_key"`
-	Resume   string `json:"resume,omitempty"` // "" | "cross-config": session created by an insecure config, offered by this one
+	Stack     string `json:"stack"`
+	Suite     uint16 `json:"suite"`
+	Insecure  bool   `json:"insecure"`
+	Chain     string `json:"chain"` // srv | untrusted | expired | future | wrong-name | single | swapped | mixed-ca | mixed-ca-sig | mixed-expired-sig | mixed-expired-enc | mixed-name-sig | rsa | ed
+	SKX       string `json:"skx"`   // ok | other-key | other-randoms | other-cert | other-params | corrupt | empty-sig | no-sig | omit
+	Fin       string `json:"fin"`   // ok | wrong
+	NoEncKey  bool   `json:"no_enc_key"`
+	Resume    string `json:"resume,omitempty"`     // "" | "cross-config": session created by an insecure config, offered by this one
+	TimeShift int    `json:"time_shift,omitempty"` // resume: the verifying configuration's clock is this many years later
 }
 
 type c02View struct {
@@ -54,6 +55,14 @@ func c02Chain(name string) (chain [][]byte, sig, enc *tk.Leaf) {
 		return [][]byte{pk.SrvEnc.DER, pk.SrvSig.DER}, pk.SrvSig, pk.SrvEnc
 	case "mixed-ca":
 		return [][]byte{pk.SrvSig.DER, pk.UntrustedEnc.DER}, pk.SrvSig, pk.UntrustedEnc
+	case "mixed-ca-sig": // the impostor's own signing certificate beside the genuine encryption certificate
+		return [][]byte{pk.UntrustedSig.DER, pk.SrvEnc.DER}, pk.UntrustedSig, pk.SrvEnc
+	case "mixed-expired-sig":
+		return [][]byte{pk.ExpiredSig.DER, pk.SrvEnc.DER}, pk.ExpiredSig, pk.SrvEnc
+	case "mixed-expired-enc":
+		return [][]byte{pk.SrvSig.DER, pk.ExpiredEnc.DER}, pk.SrvSig, pk.ExpiredEnc
+	case "mixed-name-sig":
+		return [][]byte{pk.Srv2Sig.DER, pk.SrvEnc.DER}, pk.Srv2Sig, pk.SrvEnc
 	case "rsa":
 		return [][]byte{pk.RSASig.DER, pk.RSAEnc.DER}, pk.RSASig, pk.RSAEnc
 	case "ed":
@@ -62,13 +71,15 @@ func c02Chain(name string) (chain [][]byte, sig, enc *tk.Leaf) {
 	panic("chain " + name)
 }
 
-func c02Verify(der []byte) bool {
+func c02Verify(der []byte) bool { return c02VerifyAt(der, 0) }
+
+func c02VerifyAt(der []byte, shiftYears int) bool {
 	pk := tk.GetPKI()
 	c, err := x509.ParseCertificate(der)
 	if err != nil {
 		return false
 	}
-	_, err = c.Verify(x509.VerifyOptions{Roots: pk.CA.Pool, CurrentTime: tk.Now(), DNSName: "server.test", Intermediates: x509.NewCertPool()})
+	_, err = c.Verify(x509.VerifyOptions{Roots: pk.CA.Pool, CurrentTime: tk.Now().AddDate(shiftYears, 0, 0), DNSName: "server.test", Intermediates: x509.NewCertPool()})
 	return err == nil
 }
 
@@ -244,7 +255,7 @@ func runC02(p params) error {
 		}
 		return out.Finish()
 	}
-	chains := []string{"srv", "untrusted", "expired", "future", "wrong-name", "single", "swapped", "mixed-ca", "rsa", "ed"}
+	chains := []string{"srv", "untrusted", "expired", "future", "wrong-name", "single", "swapped", "mixed-ca", "mixed-ca-sig", "mixed-expired-sig", "mixed-expired-enc", "mixed-name-sig", "rsa", "ed"}
 	skxs := []string{"other-key", "other-randoms", "other-cert", "corrupt", "empty-sig", "no-sig", "omit"}
 	for _, st := range []string{"tlcp", "dtlcp"} {
 		for _, su := range []uint16{0xe053, 0xe013, 0xe051, 0xe011} {
@@ -274,6 +285,10 @@ func runC02(p params) error {
 			c02Resume(out, c02Input{Stack: st, Suite: su, Chain: "untrusted", SKX: "ok", Fin: "ok", Resume: "cross-config"})
 			c02Resume(out, c02Input{Stack: st, Suite: su, Chain: "wrong-name", SKX: "ok", Fin: "ok", Resume: "cross-config"})
 			c02Resume(out, c02Input{Stack: st, Suite: su, Chain: "srv", SKX: "ok", Fin: "ok", Resume: "cross-config"})
+			c02Resume(out, c02Input{Stack: st, Suite: su, Chain: "srv", SKX: "ok", Fin: "ok", Resume: "cross-config", TimeShift: 50})
+			c02Resume(out, c02Input{Stack: st, Suite: su, Chain: "expired", SKX: "ok", Fin: "ok", Resume: "cross-config"})
+			c02Resume(out, c02Input{Stack: st, Suite: su, Chain: "mixed-ca-sig", SKX: "ok", Fin: "ok", Resume: "cross-config"})
+			c02Resume(out, c02Input{Stack: st, Suite: su, Chain: "mixed-ca", SKX: "ok", Fin: "ok", Resume: "cross-config"})
 		}
 	}
 	return out.Finish()
